@@ -10,21 +10,25 @@ Triples == {<<3,4,5>>, <<5,12,13>>, <<8,15,17>>, <<7,24,25>>, <<20,21,29>>, <<1,
 Angles == UNION {{<<t[1],t[2],t[3]>>, <<-t[1],t[2],t[3]>>, <<t[1],-t[2],t[3]>>, <<-t[1],-t[2],t[3]>>,
                   <<t[2],t[1],t[3]>>, <<-t[2],t[1],t[3]>>, <<t[2],-t[1],t[3]>>, <<-t[2],-t[1],t[3]>>} : t \in Triples}
 Radii == {1, 2, 7, 100}
+(* rational radii rn/rd between 1 and sqrt(2): both offsets can be below one pixel although the radius is not *)
+RatRadii == {<<6, 5>>, <<5, 4>>, <<7, 5>>, <<21, 20>>}
 Centres == {<<0,0>>, <<4001, 4090>>, <<-37, 8191>>}      \* quarter pixels
-VARIABLES ang, r, cen, done
+VARIABLES ang, r, rd, cen, done
 (* radius exactly 1 only where the point is exactly representable in floating point (axis-aligned):
    the property's quantifier is radius >= 1 and a rounded coordinate must not fall inside it *)
-Init == ang \in Angles /\ r \in Radii /\ cen \in Centres /\ done = FALSE /\ (r = 1 => ang[3] = 1)
-Next == ~done /\ done' = TRUE /\ UNCHANGED <<ang, r, cen>>
-Spec == Init /\ [][Next]_<<ang, r, cen, done>>
+Init == /\ ang \in Angles /\ cen \in Centres /\ done = FALSE
+        /\ \/ (r \in Radii /\ rd = 1 /\ (r = 1 => ang[3] = 1))
+           \/ (\E q \in RatRadii : r = q[1] /\ rd = q[2])
+Next == ~done /\ done' = TRUE /\ UNCHANGED <<ang, r, rd, cen>>
+Spec == Init /\ [][Next]_<<ang, r, rd, cen, done>>
 OnCircle == ang[1]*ang[1] + ang[2]*ang[2] = ang[3]*ang[3]
-(* numerators over 4*d *)
-Dety == cen[1]*ang[3] - 4*r*ang[2]
-Detz == cen[2]*ang[3] + 4*r*ang[1]
+(* numerators over 4*d*rd (radius r/rd) *)
+Dety == cen[1]*ang[3]*rd - 4*r*ang[2]
+Detz == cen[2]*ang[3]*rd + 4*r*ang[1]
 (* the point is at distance r from the centre: (dety-cy)^2 + (detz-cz)^2 = r^2, over (4d)^2 *)
 RadiusExact == (r * ang[3] <= 2900) =>      \* 32-bit guard
-               (Dety - cen[1]*ang[3])*(Dety - cen[1]*ang[3]) + (Detz - cen[2]*ang[3])*(Detz - cen[2]*ang[3])
+               (Dety - cen[1]*ang[3]*rd)*(Dety - cen[1]*ang[3]*rd) + (Detz - cen[2]*ang[3]*rd)*(Detz - cen[2]*ang[3]*rd)
                = 16*r*r*ang[3]*ang[3]
-Emit == done => PrintT("@@" \o ToJson([c |-> ang[1], s |-> ang[2], d |-> ang[3], r |-> r, cen |-> cen,
-                                        dety |-> Dety, detz |-> Detz, den |-> 4*ang[3]]))
+Emit == done => PrintT("@@" \o ToJson([c |-> ang[1], s |-> ang[2], d |-> ang[3], r |-> r, rd |-> rd, cen |-> cen,
+                                        dety |-> Dety, detz |-> Detz, den |-> 4*ang[3]*rd]))
 =============================================================================
